@@ -251,6 +251,8 @@ def _session_generate(ck):
     for c in sims:
         fam.setdefault(str(c["ev"][:-1]), []).append(c)
     sims = [c for k in sorted(fam) for c in rnd.sample(fam[k], min(3, len(fam[k])))]
+    # model-level verdict of the transcription (TLC also checks the action property ModelProps: frame, denotation, freshness)
+    ck.cov["session_model_states_where_pickle_changes_a_quantity"] = len(rt.by_tag("MODEL-PICKLE")) + len(rt2.by_tag("MODEL-PICKLE"))
     ck.cov["bound"]["session"] = {"MaxLen": maxlen, "transitions_exported": len(hists), "simulated": len(sims), "sim_depth": depth}
     return [{"ev": r["ev"]} for r in hists], [{"ev": r["ev"]} for r in sims]
 
